@@ -725,6 +725,9 @@ def run(ctx):
     import tbl
     tbl.rule_language(ctx, 'C05.R5', probes=('sc', 'nest'), what='the rules active in every start condition (nested scopes, <*>, inclusive/exclusive)')
     rep.floor('C05.R5', 18, 'language probes x table representations')
+    import macro_hygiene
+    macro_hygiene.check(ctx, 'C05.R8', {'BEGIN', 'yybegin'}, ['yybegin'])
+    rep.floor('C05.R8', 3, 'yybegin() in the nr, r and C++ instantiation of the cpp skeleton')
     return rep.finish('other',
         'Who-may-write analysis of the start-state register over the LLVM IR of %d instantiated scanner variants (all five back ends, call graph with '
         'C++ virtual calls resolved through the class vtable); relational check of the bounds guards of the start-condition stack (edge predicate over '
